@@ -65,6 +65,13 @@ theorem index_eq_range_item (h : Node) (n : Nat) (hn : h.numOut = some n) (i : I
     · have b : i ≥ (n : Int) := by omega
       simp [a, b]
 
+/-- A tuple of integers is indexed element by element (`(self[i] for i in xs)`). -/
+theorem tuple_ok (h : Node) (n : Nat) (hn : h.numOut = some n) (xs : List Int)
+    (hx : ∀ i ∈ xs, -(n : Int) ≤ i ∧ i < n) :
+    getTuple h xs = .ok (xs.map fun i => out h (i % (n : Int))) :=
+  collect_ok (getInt h) (fun i => out h (i % (n : Int))) xs
+    (fun i hi => (index_ok_iff h n hn i).mpr (hx i hi))
+
 /-! ### Slicing, known count, positive step -/
 
 /-- Known count `n`, step `> 0` (or `None`), both bounds `None` or `≥ -n`: the slice is exactly
@@ -311,6 +318,9 @@ theorem addOp_iter (idx m : Nat) (md : List (String × String)) :
 example : PosStep (some 2) ∧ BoundOk 5 (some (-5)) ∧ BoundOk 5 (some 99) ∧ BoundOk 5 none ∧ PosStep none := by
   refine ⟨?_, ?_, ?_, ?_, ?_⟩ <;> intro x hx <;> cases hx <;> omega
 
+example : (addOp 3 5).numOut = some 5 ∧ (addNode 3 none).numOut = none ∧ (addNode 3 (some 0)).numOut = some 0 :=
+  ⟨rfl, rfl, rfl⟩
+example : getTuple (addOp 3 5) [0, -1, 4] = .ok [out (addOp 3 5) 0, out (addOp 3 5) 4, out (addOp 3 5) 4] := by rfl
 example : Slice.range 5 (some (-5)) (some 99) 2 = [0, 2, 4] := by decide
 example : Slice.range 5 (some (-2)) none 1 = [3, 4] := by decide
 example : Slice.range 5 (some 7) (some 9) 1 = [] := by decide
